@@ -18,6 +18,10 @@ CHECKS = {
          "The real h2.Config.Proxy runs between two frame-level endpoints (which close their side on EOF/error like real peers) over simnet under the gosim scheduler: 7 terminating events (client closes, server closes, write failure toward either side, malformed frame from either side, proxy shutdown) x 4 session states (idle, mid-stream, DATA blocked on a zero window with trailers queued, output channel full because the server stopped reading) + bad preface + dial error; every schedule with <=1 (quick) / <=2 (thorough) deviations; oracle at the first quiescent point with zero virtual time elapsed: Proxy returned, its upstream connection is closed, no thread spawned by the session is alive.",
          "TLS replaced by the dial seam (no close_notify); a peer that stopped reading never closes.",
          "stateless schedule/fault enumeration of the implementation (gosim)", "gosim", "DESIGN.md §7 C10"),
+ "C14": ("model_checking",
+         "Exhaustive enumeration of header multisets (Connection lines with comma lists over 6 tokens, fixed hop-by-hop subsets, listed and unlisted end-to-end headers, 12 Via chains incl. this instance at every position/line, X-Forwarded-* variants, Content-Length / Transfer-Encoding combinations, protocol/address/URL environments) as a union of full sub-products, for requests and responses, run on the real httpspec stack with a test context and a stated subset through the real proxy over loopback; reference model from the statement (hop-by-hop removal, untouched other headers, exactly one appended Via, X-Forwarded-* semantics, loop => 400 and not sent upstream, framing errors flagged); failures are minimised factor by factor into signatures.",
+         "Union of sub-products rather than the full product; Proxy-Connection treated as don't-care; requests net/http itself refuses are counted, not judged.",
+         "bounded-exhaustive input enumeration against a reference model", "enum", "DESIGN.md §7 C14"),
  "C17": ("model_checking",
          "All operation sequences up to length 6 (quick) / 7 (thorough) over a 9-operation alphabet are run on the real har.Logger and compared step by step with a list model; 2-3 thread scenarios on colliding ids are run under the gosim scheduler with every interleaving of the logger's lock operations enumerated and each recorded history checked for linearizability against the same model.",
          "Scheduling points are synchronisation operations only (lock/atomic/channel); ids {a,b,c}; bodiless request/response shapes.",
